@@ -93,3 +93,149 @@ func (f *verifByteFile) WriteAt(p []byte, off int64) (int, error) {
 	return len(p), nil
 }
 func (f *verifByteFile) Close() error { return nil }
+
+// verifE2EFile is the remote file of the end-to-end harness: a byte slice;
+// reads may come back short by `shortBy` bytes on the call numbered `shortAt`
+// (a backend is allowed to do that), writes are stored at their offset.
+type verifE2EFile struct {
+	File
+	data     []byte
+	reads    int
+	writes   int
+	shortAt  int
+	wshortAt int
+	wrote    []verifChunkCall
+	lastOff  int64
+}
+
+func (f *verifE2EFile) Open(OpenFlags) (QID, uint32, error) { return QID{}, 0, nil }
+func (f *verifE2EFile) Close() error                        { return nil }
+func (f *verifE2EFile) GetAttr(AttrMask) (QID, AttrMask, Attr, error) {
+	return QID{Type: TypeRegular, Path: 1}, AttrMask{Mode: true}, Attr{Mode: ModeRegular | 0644}, nil
+}
+func (f *verifE2EFile) Walk(names []string) ([]QID, File, error) {
+	// a clone shares the byte slice holder
+	return nil, f, nil
+}
+func (f *verifE2EFile) ReadAt(p []byte, off int64) (int, error) {
+	k := f.reads
+	f.reads++
+	if off < 0 || off >= int64(len(f.data)) {
+		return 0, io.EOF
+	}
+	n := copy(p, f.data[off:])
+	if k == f.shortAt && n > 1 {
+		n--
+	}
+	return n, nil
+}
+func (f *verifE2EFile) WriteAt(p []byte, off int64) (int, error) {
+	k := f.writes
+	f.writes++
+	n := len(p)
+	if k == f.wshortAt && n > 0 {
+		n--
+	}
+	for int64(len(f.data)) < off+int64(n) {
+		f.data = append(f.data, 0)
+	}
+	copy(f.data[off:], p[:n])
+	f.wrote = append(f.wrote, verifChunkCall{off: off, ln: len(p), n: n})
+	return n, nil
+}
+
+type verifE2EAttacher struct{ f *verifE2EFile }
+
+func (a verifE2EAttacher) Attach() (File, error) { return a.f, nil }
+
+// VerifH_C11_EndToEnd: ReadAt/WriteAt of a real Client against the real
+// server over the synchronous loop, with a payload limit of 1..3 bytes so
+// that buffers of 0..N bytes need up to N chunks; file content, buffer
+// content and the position of one short backend result are symbolic.
+func VerifH_C11_EndToEnd() {
+	f := &verifE2EFile{shortAt: -1, wshortAt: -1}
+	s := NewServer(verifE2EAttacher{f})
+	cs := verifNewConn(s)
+	l := &verifLoop{cs: cs}
+	c, err := NewClient(l, WithMessageSize(8192))
+	verifAssume(err == nil)
+	N := verifParam("N", 4)
+	ps := 1 + verifChoice(verifParam("PS", 2))
+	c.payloadSize = uint32(ps)
+	rf, err := c.Attach("")
+	verifAssume(err == nil)
+	_, _, err = rf.Open(ReadWrite)
+	verifAssume(err == nil)
+	off := int64(verifChoice(3))
+	if verifChoice(2) == 0 {
+		// ReadAt
+		f.data = verifNondetBytes(verifChoice(N + 1))
+		p := make([]byte, verifChoice(N+1))
+		if verifChoice(2) == 1 {
+			f.shortAt = verifChoice(2)
+		}
+		n, err := rf.ReadAt(p, off)
+		verifReach("read-done")
+		avail := 0
+		if off < int64(len(f.data)) {
+			avail = len(f.data) - int(off)
+		}
+		verifAssert(n >= 0 && n <= len(p) && n <= avail, "ReadAt count within the buffer and the file")
+		for i := 0; i < n; i++ {
+			verifAssert(p[i] == f.data[int(off)+i], "ReadAt delivers the file's bytes from the offset, in order")
+		}
+		verifAssert(err == nil || err == io.EOF, "ReadAt reports nothing but io.EOF here")
+		if err == io.EOF {
+			verifAssert(n < len(p), "io.EOF only if fewer than len(p) bytes were delivered")
+		}
+		if n == 0 && len(p) > 0 {
+			verifAssert(err == io.EOF, "io.EOF always when nothing was delivered for a non-empty p")
+		}
+		if f.shortAt < 0 {
+			want := avail
+			if want > len(p) {
+				want = len(p)
+			}
+			verifAssert(n == want, "without short backend reads p is filled up to end of file")
+			if len(p) >= 2*ps+1 && avail >= len(p) {
+				verifReach("read-three-chunks")
+			}
+		} else if n < len(p) && n < avail {
+			// stopped early: only at the short chunk
+			verifAssert(f.reads >= f.shortAt+1, "ReadAt stops early only at a short chunk")
+		}
+		verifAssert(f.reads >= 1, "even an empty buffer makes one remote read")
+	} else {
+		// WriteAt
+		p := verifNondetBytes(verifChoice(N + 1))
+		if verifChoice(2) == 1 {
+			f.wshortAt = verifChoice(2)
+		}
+		n, err := rf.WriteAt(p, off)
+		verifReach("write-done")
+		verifAssert(err == nil, "WriteAt without backend error reports none")
+		verifAssert(n >= 0 && n <= len(p), "WriteAt count within the buffer")
+		if f.wshortAt < 0 {
+			verifAssert(n == len(p), "n = len(p) when the backend accepts everything")
+		}
+		// the file holds exactly p[:n] at the offset, and nothing beyond
+		verifAssert(len(f.data) == 0 && n == 0 || int64(len(f.data)) == off+int64(n), "WriteAt stores nothing beyond p[:n]")
+		for i := 0; i < n; i++ {
+			verifAssert(f.data[int(off)+i] == p[i], "WriteAt stores exactly p[:n] at the offset")
+		}
+		sum := 0
+		for k, w := range f.wrote {
+			verifAssert(w.off == off+int64(sum), "chunks are issued in order at offset + bytes done")
+			verifAssert(w.ln <= ps, "each chunk within the payload limit")
+			if k > 0 {
+				prev := f.wrote[k-1]
+				verifAssert(prev.n == prev.ln && prev.n == ps, "no chunk after a short one")
+			}
+			sum += w.n
+		}
+		verifAssert(sum == n, "result count = sum of accepted chunk counts")
+		if len(f.wrote) >= 3 {
+			verifReach("write-three-chunks")
+		}
+	}
+}
